@@ -61,6 +61,9 @@ class Detail(ComplexModel):
 def _work(ctx, a, s):
     TRACE.append('fn:work')
     k = BEHAVE.get('fn')
+    hv = BEHAVE.get('headers')
+    if hv is not None and hasattr(ctx.transport, 'resp_headers'):
+        ctx.transport.resp_headers['Set-Cookie'] = hv       # user code adds response headers: one value or several
     if k == 'fault':
         raise Fault(BEHAVE.get('code', 'Client.Custom.Sub'), BEHAVE.get('msg', u'custom méssage'),
                     detail=BEHAVE.get('detail'))
@@ -155,7 +158,10 @@ def request_bytes(proto, kind):
         body = {'valid': b'{"work": {"a": 5, "s": "x"}}', 'malformed': b'{"work": {"a": 5, ',
                 'empty': b'', 'wrong_root': b'[1, 2]', 'unknown_method': b'{"nope": {"a": 5}}',
                 'invalid_arg': b'{"small": {"a": 77}}', 'wrong_kind': b'{"work": {"a": "abc", "s": 5}}',
-                'bad_utf8': b'{"work": {"a": 5, "s": "\xff\xfe"}}'}[kind]
+                'bad_utf8': b'{"work": {"a": 5, "s": "\xff\xfe"}}',
+                # documents that parse but are no request envelope
+                'json_two_keys': b'{"work": {"a": 5, "s": "x"}, "small": {"a": 1}}', 'json_one_item_list': b'["work"]',
+                'json_scalar': b'5', 'json_string': b'"w"', 'json_null': b'null', 'json_nested_list': b'[["work"]]'}[kind]
         if kind == 'bad_utf8':
             env['CONTENT_TYPE'] = 'application/json; charset=utf-8'
     elif proto == 'xml':
@@ -186,7 +192,8 @@ def request_bytes(proto, kind):
 
 
 REQUEST_KINDS = ['valid', 'malformed', 'empty', 'wrong_root', 'unknown_method', 'invalid_arg', 'wrong_kind',
-                 'bad_utf8', 'too_long']
+                 'bad_utf8', 'too_long', 'json_two_keys', 'json_one_item_list', 'json_scalar', 'json_string', 'json_null',
+                 'json_nested_list']
 MAX_LEN = 4096
 STAGE_FAILS = ['none', 'call_listener_fault', 'call_listener_exc', 'fn_fault', 'fn_fault_detail', 'fn_exc',
                'ret_listener_fault', 'ret_listener_exc', 'unserializable']
@@ -207,19 +214,28 @@ class Record(object):
         self.extra = {}
 
 
-def run_scenario(sx, proto, transport):
+HEADER_FORMS = {'none': None, 'str': 'a=1', 'list': ['a=1', 'b=2'], 'tuple': ('a=1', 'b=2')}
+
+
+def run_scenario(sx, proto, transport, user_headers=False):
     """chooses a schedule, runs it, returns (schedule dict, Record)"""
     app = get_app(proto)
     req = sx.choose('request', REQUEST_KINDS)
     stage = 'none'
     level = None
+    hform = 'none'
     if req == 'valid':
         stage = sx.choose('stage', STAGE_FAILS)
         if 'listener' in stage:
             level = sx.choose('level', LISTENER_LEVELS)
-    sched = {'proto': proto, 'transport': transport, 'request': req, 'stage': stage, 'level': level}
+        if user_headers and stage in ('none', 'fn_fault', 'fn_exc'):
+            hform = sx.choose('user_headers', ['none', 'str', 'list', 'tuple'])
+    if req.startswith('json_') and in_of(proto) != 'json':
+        sx.outside('a JSON document that is no envelope: only for the JSON input protocol')
+    sched = {'proto': proto, 'transport': transport, 'request': req, 'stage': stage, 'level': level, 'headers': hform}
     del TRACE[:]
     BEHAVE.clear()
+    BEHAVE['headers'] = HEADER_FORMS[hform]
     if stage.startswith('call_listener'):
         BEHAVE['raise_in'] = ('method_call', level, 'fault' if stage.endswith('fault') else 'exc')
     elif stage.startswith('ret_listener'):
